@@ -106,9 +106,13 @@ func runC19(c *RuleCtx) {
 		c.Check(pidOK, "R19.1", f.Name, "event stamped with the local peer ID", lit, "PeerID=t.pid", "the event's PeerID is not the local peer")
 		// Trace reached whenever a tracer is attached
 		g := p.Graph(f)
-		tNil := AtomNil("t == nil", func(v *V) bool { return v.Kind == "var" && v.Name == "t" })
+		var recvObj types.Object
+		if f.Decl != nil && f.Decl.Recv != nil && len(f.Decl.Recv.List) == 1 && len(f.Decl.Recv.List[0].Names) == 1 {
+			recvObj = f.Info().Defs[f.Decl.Recv.List[0].Names[0]]
+		}
+		tNil := AtomNil("t == nil", func(v *V) bool { return v.Kind == "var" && recvObj != nil && v.Obj == recvObj })
 		trNil := AtomNil("t.tracer == nil", isFieldOf("pubsubTracer.tracer"))
-		ok, _ := g.MustPass(g.Entry(), PassOpts{Cut: edgeCut(g.AtomEdges(tNil, true), g.AtomEdges(trNil, true))}, p.callPred(f, "EventTracer.Trace"))
+		ok, _ := g.MustPass(g.Entry(), PassOpts{Cut: g.CutAny(AtomWant{tNil, true}, AtomWant{trNil, true})}, p.callPred(f, "EventTracer.Trace"))
 		c.Check(ok, "R19.1", f.Name, "event handed to the tracer on every path", lit, "every path with a tracer attached calls Trace", "a path with a tracer attached returns without tracing the event")
 		for _, cs := range p.Sites(f, false, "EventTracer.Trace") {
 			v := p.R(f).Val(cs.Call.Args[0])
